@@ -41,7 +41,7 @@ GeosL == { <<I(4), Q(5,2)>> }                  \* other lengths: seeded directio
 AnglesL == IF Tier = "quick" THEN { [s |-> RZero, c |-> ROne], [s |-> Q(3,5), c |-> Q(4,5)] } ELSE Angles
 
 Combo == { <<1,1>> } \cup ({2,3,4} \X {1,2,3,4}) \cup ({1} \X {2,3,4})     \* sub-lattice A: (force option, pressure option)
-ABT == (1..6) \X (1..5) \X (1..2)                                             \* sub-lattice B: axial x torsion x beta
+ABT == (1..6) \X (IF Tier = "quick" THEN {1, 2, 3, 5} ELSE 1..5) \X (1..2)       \* sub-lattice B: axial x torsion x beta
 MkCase(sh, g, a, fo, po, ao, to, bo) ==
     LET ax == AxialOpts(sh.n2)[ao]
         tr == TorsOpts[to]
@@ -53,7 +53,7 @@ MkCase(sh, g, a, fo, po, ao, to, bo) ==
 Cases == { MkCase(sh, g, a, c[1], c[2], 1, 1, 1) : sh \in ShellsL, g \in GeosL, a \in AnglesL, c \in Combo }
          \cup { MkCase(sh, g, a, fp[1], fp[2], t[1], t[2], t[3]) :
                   sh \in ShellsL, g \in GeosL, a \in AnglesL, t \in ABT,
-                  fp \in IF Tier = "quick" THEN {<<4,4>>} ELSE {<<1,1>>, <<4,4>>} }
+                  fp \in IF Tier = "quick" THEN {<<2,2>>} ELSE {<<1,1>>, <<4,4>>} }
 
 Req(inc) == [sh |-> shell, geo |-> obj.geo, ang |-> obj.ang, Fc |-> obj.Fc, nxxIn |-> obj.nxxIn, xiLA |-> obj.xiLA,
              pdC |-> obj.pdC, pdT |-> obj.pdT, uTM |-> obj.uTM, thetaTdeg |-> obj.thetaTdeg, tanBeta |-> obj.tanBeta,
